@@ -13,6 +13,7 @@
 //!       {"do":"Settle"}     iterate until nothing changes; the record is marked quiescent ("q":true)
 //!       {"do":"PollWoken"}  poll every worker whose waker fired (timers, stop messages)
 
+mod builder;
 mod e2e;
 mod load;
 
@@ -818,6 +819,40 @@ fn main() {
                 for rec in load::project(run, sc, &events) {
                     trace.emit(&rec);
                     nev += 1;
+                }
+            }
+            trace.finish();
+            let _ = std::fs::remove_dir_all(&dir);
+            println!("{}", json!({"runs": scenarios.len(), "steps": nev, "mismatches": 0, "first_mismatches": []}));
+        }
+        // ServerBuilder call sequences (layouts from Builder.tla) + events on the running server
+        "builder" => {
+            let scenarios = read_ndjson(&arg("--scenarios").expect("--scenarios"));
+            let mut trace = Trace::create(&arg("--trace").expect("--trace"));
+            let dir = std::env::temp_dir().join(format!("vsrv-bld-{}", std::process::id()));
+            std::fs::create_dir_all(&dir).unwrap();
+            let d = dir.display().to_string();
+            let mut nev = 0usize;
+            // a panic of the code under test on a server thread is data (recorded as run ok=false), keep stderr quiet
+            std::panic::set_hook(Box::new(|_| {}));
+            for (chunk_no, chunk) in scenarios.chunks(12).enumerate() {
+                let handles: Vec<_> = chunk
+                    .iter()
+                    .cloned()
+                    .enumerate()
+                    .map(|(k, sc)| {
+                        let d = d.clone();
+                        std::thread::spawn(move || builder::run_scenario(&sc, &d, chunk_no * 12 + k))
+                    })
+                    .collect();
+                for (k, h) in handles.into_iter().enumerate() {
+                    let run = chunk_no * 12 + k;
+                    let recs = h.join().unwrap_or_else(|_| vec![json!({"ev": "reset", "scenario": chunk[k]}), json!({"ev": "driverpanic"})]);
+                    for mut rec in recs {
+                        rec["run"] = json!(run);
+                        trace.emit(&rec);
+                        nev += 1;
+                    }
                 }
             }
             trace.finish();
